@@ -191,3 +191,6 @@ OBLIGATIONS = [
          bounds='all sequences of 4 (thorough 5) operations out of 9, from the initial state',
          encodes=['TransferCoordinator public operations'], assumptions=[]),
 ]
+
+from harness.corace import OB_RACE, coordinator_race  # noqa: E402
+OBLIGATIONS += [dict(OB_RACE, id='C17.3')]
